@@ -8,7 +8,7 @@
    `step` accepts, i.e. over every relative timing of the tasks.  `spec rs` = the values of the files
    in order up to the first task that raised, and that task's exception. *)
 From Coq Require Import ZArith List Bool Arith Lia Sorted.
-From Typhon Require Import Model.C10_pool Proofs.C10_pool Proofs.C10_align.
+From Typhon Require Import Model.C10_pool Proofs.C10_pool Proofs.C10_align Model.C10_bundle Proofs.C10_bundle.
 Import ListNotations.
 
 (* every reachable state of imap satisfies the invariant *)
@@ -157,6 +157,57 @@ Proof.
   - unfold align_model. destruct (align_final (uses_of matches)) as (_ & _ & _ & Hc & _). exact Hc.
 Qed.
 
+(* laziness: imap()/icollect() never run ahead of their consumer.  In every reachable state the number of
+   submitted tasks (next) is at most the number of results handed to the caller plus max_workers ... *)
+Theorem imap_lazy : forall w rs tr s, 0 < w -> run w rs init tr = Some s ->
+  next s <= length (out s) + w.
+Proof. exact reachable_lazy. Qed.
+
+(* ... so file k is submitted only after the results of the files 0 .. k-w have been yielded: in any accepted
+   trace that ends with Submit k, the caller holds more than k - w results already before that submit. *)
+Theorem imap_submit_waits_for_consumer : forall w rs pre k s, 0 < w ->
+  run w rs init (pre ++ [Submit k]) = Some s ->
+  next s = S k /\ k < length (out s) + w
+  /\ exists s0, run w rs init pre = Some s0 /\ out s = out s0 /\ k < length (out s0) + w.
+Proof. exact submit_waits. Qed.
+
+(* the bundle case of the wrapper (Model/C10_bundle.v): the members are read through the nested collect().
+   With on_content, the task's result is a warning + None iff error_to_warning is set and some member
+   cannot be read -- or, the degenerate case the code has, no content at all is left to hand on (empty
+   bundle, every content None); otherwise it is the function applied to the members' contents in member
+   order (None contents dropped by collect); without error_to_warning the error of the first unreadable
+   member (in member order) reaches the caller. *)
+Theorem bundle_task_result : forall c bt, on_content c = true ->
+  let ms := b_members bt in
+  (btask_result c bt = ReadWarn <-> (e2w c = true /\ (unreadable ms \/ contents ms = [])))
+  /\ (contents ms <> [] -> (btask_result c bt = ReadWarn <-> (e2w c = true /\ unreadable ms)))
+  /\ (~ unreadable ms -> contents ms <> [] -> btask_result c bt = func_result (b_func bt (contents ms)))
+  /\ (e2w c = false -> forall pre e post, ms = pre ++ MFail e :: post -> ~ unreadable pre ->
+        btask_result c bt = Err e).
+Proof. exact bundle_task_result_lemma. Qed.
+
+(* the explicit bundle model refines the tasks of the pool model, so every pool theorem above holds for
+   streams of bundles *)
+Theorem bundle_refines_task : forall c bt, btask_result c bt = task_result c (abstract_task c bt).
+Proof. exact bundle_refines. Qed.
+
+(* the nested collect() returns the same thing whatever the completion order of its member reads *)
+Theorem bundle_collect_any_member_order : forall ms tr s,
+  let rs := member_results ms in
+  run (map_width rs) rs init tr = Some s -> final rs s -> collect_obs (observed rs s) = bundle_collect ms.
+Proof. exact bundle_collect_any_order. Qed.
+
+(* a stream of bundles under error_to_warning: for every schedule each bundle gets its own value, an
+   unreadable member costs that bundle only *)
+Theorem bundle_read_warning_local : forall c bts w tr s, 0 < w ->
+  on_content c = true -> e2w c = true -> (forall bt l, In bt bts -> exists v, b_func bt l = FRet v) ->
+  run w (map (btask_result c) bts) init tr = Some s -> final (map (btask_result c) bts) s ->
+  observed (map (btask_result c) bts) s = (map bundle_value bts, None).
+Proof.
+  intros c bts w tr s Hw Hoc Hew Hf H Hfin. rewrite <- (bundle_warnings_local c bts Hoc Hew Hf).
+  exact (inv_final_observed w _ s (reachable_inv w _ tr s Hw H) Hfin).
+Qed.
+
 (* ------------------------------------------------------------------ non-vacuity *)
 
 (* five files, two workers; file 1 cannot be read (warning), the function returns None for file 2;
@@ -189,6 +240,53 @@ Example nonvacuous_align :
   collect_model [Ok (Some 5%Z); ReadWarn; Ok None; Ok (Some 8%Z)] = CList [(0, 5%Z); (3, 8%Z)].
 Proof. vm_compute. repeat split. Qed.
 
+(* laziness is not vacuous: five files, two workers.  The bound is reached (two submitted, none yielded) and
+   there the model refuses to submit a third file -- even once both running tasks are complete -- until
+   the caller has taken the result of file 0; at the end of the complete run all five were submitted. *)
+Example nonvacuous_lazy :
+  let rs := [Ok (Some 1); Ok None; ReadWarn; Ok (Some 4); Ok (Some 5)]%Z in
+  (exists s, run 2 rs init [Submit 0; Submit 1] = Some s /\ next s = length (out s) + 2
+             /\ step 2 rs s (Submit 2) = None) /\
+  (exists s, run 2 rs init [Submit 0; Submit 1; Complete 1; Complete 0] = Some s
+             /\ step 2 rs s (Submit 2) = None
+             /\ exists s', run 2 rs s [Yield 0; Submit 2] = Some s' /\ next s' = length (out s') + 2) /\
+  (exists s, run 2 rs init (schedule 24 2 rs [4; 3; 2; 1; 0] init) = Some s /\ final rs s /\ next s = 5).
+Proof.
+  cbn zeta. split; [|split].
+  - eexists. split; [vm_compute; reflexivity|]. vm_compute. repeat split.
+  - eexists. split; [vm_compute; reflexivity|]. split; [vm_compute; reflexivity|].
+    eexists. split; [vm_compute; reflexivity|]. vm_compute. reflexivity.
+  - eexists. split; [vm_compute; reflexivity|]. vm_compute. repeat split.
+Qed.
+
+(* bundles: three members, the middle content is None: the function (here: the sum) sees [5; 7]; the inner
+   map run with the members completing in reverse order is accepted and gives the same collect; with an
+   unreadable member the task is a warning under error_to_warning and otherwise raises the error of the
+   first unreadable member in member order. *)
+Example nonvacuous_bundle :
+  let f := fun l : list Z => FRet (Some (fold_right Z.add 0%Z l)) in
+  let good := {| b_members := [MOk (Some 5%Z); MOk None; MOk (Some 7%Z)]; b_func := f; b_info := FRet None |} in
+  let bad := {| b_members := [MOk (Some 5%Z); MFail 9%Z; MFail 4%Z]; b_func := f; b_info := FRet None |} in
+  let cw := {| on_content := true; e2w := true |} in
+  let ce := {| on_content := true; e2w := false |} in
+  contents (b_members good) = [5; 7]%Z /\ ~ unreadable (b_members good) /\
+  btask_result cw good = Ok (Some 12%Z) /\
+  btask_result cw bad = ReadWarn /\ btask_result ce bad = Err 9%Z /\
+  (let rs := member_results (b_members good) in
+   let tr := [Submit 0; Submit 1; Submit 2; Complete 2; Complete 1; Complete 0; Yield 0; Yield 1; Yield 2] in
+   exists s, run (map_width rs) rs init tr = Some s /\ final rs s
+             /\ collect_obs (observed rs s) = CList [(0, 5%Z); (2, 7%Z)]) /\
+  (* the harness's encoding: tasks (bundles) 0 and 1, task 1 has an unreadable member *)
+  bresults true true [mk_btask [0; 1] [0; 1] 0 1000; mk_btask [2; 2003] [2; 3] 0 1001]%Z = [Ok (Some 1000%Z); ReadWarn] /\
+  bundle_args [mk_btask [0; -1; 1] [0; 1] 0 1000]%Z = [Some [0; 1]%Z].
+Proof.
+  cbn zeta. split; [reflexivity|]. split.
+  - intros (e & [H|[H|[H|[]]]]); discriminate.
+  - split; [vm_compute; reflexivity|]. split; [vm_compute; reflexivity|]. split; [vm_compute; reflexivity|].
+    split; [|split; vm_compute; reflexivity].
+    eexists. split; [vm_compute; reflexivity|]. vm_compute. repeat split.
+Qed.
+
 Print Assumptions imap_inv.
 Print Assumptions imap_in_order.
 Print Assumptions imap_all_files_in_order.
@@ -206,3 +304,9 @@ Print Assumptions collect_error_propagates.
 Print Assumptions align_loads_once_in_order.
 Print Assumptions align_delivers_all.
 Print Assumptions align_evicts_after_last_use.
+Print Assumptions imap_lazy.
+Print Assumptions imap_submit_waits_for_consumer.
+Print Assumptions bundle_task_result.
+Print Assumptions bundle_refines_task.
+Print Assumptions bundle_collect_any_member_order.
+Print Assumptions bundle_read_warning_local.
